@@ -465,7 +465,8 @@ pub fn run(cfg: &Cfg, out: &mut Out) {
                     &answer(&o),
                 );
                 oracle(out, &progs, &o);
-                if runs >= 30000 {
+                // the prefilled configurations cost ~200 grants per run: cap them lower
+                if runs >= (if fixed_prefix.is_empty() { 30000 } else { 2500 }) {
                     break;
                 }
                 // backtrack only after the fixed prefix (the prefill is not permuted)
